@@ -18,6 +18,7 @@ CONSTANTS NRemotes,     \* remotes 1..NRemotes
           VLanes, MLanes, SLanes,   \* value / map / supply lanes remotes may address
           UseCmd,       \* TRUE: instruction commands to the "cmd" lane (agent-side writes, supply, sends)
           Keys,         \* map keys
+          Advances,     \* set of clock advances (ms) the environment may make ({} = the clock is never advanced)
           Burst,        \* TRUE: sends may be issued back to back without letting the agent settle
           Faults        \* subset of {"drop", "dropread", "unknown", "restart", "kill"}
 
@@ -87,6 +88,9 @@ Gone == \E r \in Live : \E how \in Faults \cap {"drop", "dropread"} :
             /\ Emit([k |-> how, r |-> r])
             /\ gone' = gone \cup {r} /\ UNCHANGED <<att, nv, restarts>>
 
+Advance == \E ms \in Advances :
+            /\ Emit([k |-> "advance", ms |-> ms]) /\ UNCHANGED <<att, gone, nv, restarts>>
+
 Quiesce == /\ Len(script) > 0 /\ script[Len(script)].k # "quiesce"
            /\ Emit([k |-> "quiesce"]) /\ UNCHANGED <<att, gone, nv, restarts>>
 
@@ -99,7 +103,7 @@ Restart == /\ restarts < 2
 \* Two-stage choice so that TLC's uniform choice among successors is uniform among the *kinds*
 \* of step (with multiplicities as weights), not among their many parameterisations.
 Kinds == {"attach", "proto1", "proto2", "proto3", "set1", "set2", "map1", "map2", "map3", "agent1", "agent2",
-          "read1", "read2", "read3", "gone", "quiesce", "restart", "unknown"}
+          "read1", "read2", "read3", "gone", "quiesce", "restart", "unknown", "adv1", "adv2", "adv3"}
 
 Can(kd) ==
     CASE kd = "attach" -> att # Remotes
@@ -112,6 +116,7 @@ Can(kd) ==
       [] kd = "quiesce" -> Len(script) > 0 /\ script[Len(script)].k # "quiesce"
       [] kd = "restart" -> restarts < 2 /\ Faults \cap {"restart", "kill"} # {} /\ Len(script) > 3
       [] kd = "unknown" -> Live # {} /\ "unknown" \in Faults
+      [] kd \in {"adv1", "adv2", "adv3"} -> Advances # {}
 
 Do(kd) ==
     CASE kd = "attach" -> Attach
@@ -124,6 +129,7 @@ Do(kd) ==
       [] kd = "quiesce" -> Quiesce
       [] kd = "restart" -> Restart
       [] kd = "unknown" -> Unknown
+      [] kd \in {"adv1", "adv2", "adv3"} -> Advance
 
 Pick == /\ kind = "none" /\ Len(script) < MaxLen
         /\ \E kd \in Kinds : Can(kd) /\ kind' = kd
